@@ -394,6 +394,7 @@ type Exec struct {
 	logs   []Value
 
 	sched *scheduler
+	parseMemo map[string]*parseRes
 }
 
 type inputRec struct {
@@ -518,9 +519,18 @@ func (ex *Exec) addPC(t *smt.Term) {
 	}
 	ex.markUsed(t)
 	ex.pcSet[t.S] = true
+	ex.learn(t)
 	ex.pc = append(ex.pc, t)
 	if !ex.mute {
 		ex.solver.Assert(t)
+	}
+}
+
+// learn records the conjuncts of an asserted conjunction as known facts (syntactic cache only).
+func (ex *Exec) learn(t *smt.Term) {
+	for _, c := range t.Conj {
+		ex.pcSet[c.S] = true
+		ex.learn(c)
 	}
 }
 
